@@ -83,6 +83,48 @@ def cut_stream_scenario(rng, res, count):
                 res["violations"].append(("rerun-does-not-reach-uninterrupted-result", f"the same command after the sender died mid-stream: rc={rr.returncode}, differs at {diff[:4]} (the destination keeps its old bytes); {rr.stderr.decode('utf-8', 'replace')[-200:]}", rep))
 
 
+def delete_rerun_scenario(rng, res, count):
+    """C09, second sentence: `sync -r --delete --jobs 4`, killed right before the rename of one file (its staging file is left
+    behind and — not being filtered from the destination listing — is a planned delete of the next run). The same command again,
+    with every `rename` held back for 0.3 s: it must complete and reach the uninterrupted result (seed C09-K: deletes run on the
+    transfer pool, the leftover's delete unlinks the staging file the re-run is filling, the rename fails)."""
+    for direction in ("local", "pull"):
+        src = {"a.bin": mk(rng, 400_000), "b.txt": b"small new\n", "c/d.txt": b"nested new\n", "same.txt": b"unchanged"}
+        dst = {"a.bin": mk(rng, 300_000), "b.txt": b"small old version\n", "same.txt": b"unchanged", "stale-1.txt": b"stale", "stale-2.txt": b"stale too"}
+        with Sandbox("C09") as sb:
+            T, W = sb.path("T"), sb.path("W")
+            whome = os.path.join(W, "home"); os.makedirs(whome)
+            sb.env["HOME"] = whome; sb.env["SSH_STUB_HOME"] = whome
+            if direction == "local":
+                sroot, droot = os.path.join(W, "src"), os.path.join(W, "dst"); sarg, darg = sroot, droot
+            else:
+                sroot, droot = os.path.join(whome, "rsrc"), os.path.join(W, "dst"); sarg, darg = f"{HOST}:rsrc", droot
+            smt = {k: 1_650_000_000 + i for i, k in enumerate(sorted(src))}
+            dmt = {k: (smt[k] if k in src and dst[k] == src[k] else 1_500_000_000) for k in dst}
+            write_tree(sroot, src, smt); write_tree(droot, dst, dmt)
+            shutil.copytree(W, T, symlinks=True)
+            cmd = [CLI_BIN, "sync", "-r", sarg, darg, "--jobs", "4", "--delete"]
+            r = subprocess.run(cmd, env=sb.env, cwd=sb.dir, stdout=subprocess.PIPE, stderr=subprocess.PIPE)
+            fin = read_tree(droot)
+            if r.returncode != 0:
+                res["broken"].append(f"C09/delete-rerun reference run failed rc={r.returncode}"); continue
+            for victim in ("a.bin", "b.txt"):
+                shutil.rmtree(W, ignore_errors=True); shutil.copytree(T, W, symlinks=True)
+                vp = os.path.join(droot, victim)
+                kr = subprocess.run(["strace", "-f", "-b", "execve", "-qq", "-o", "/dev/null", "-P", vp, "-P", vp + ".copia-tmp", "-e", "trace=rename",
+                                     "-e", "inject=rename:signal=SIGKILL:when=1"] + cmd, env=sb.env, cwd=sb.dir, stdout=subprocess.PIPE, stderr=subprocess.PIPE)
+                left = [p for p in read_tree(droot) if p.endswith(".copia-tmp")]
+                rr = subprocess.run(["strace", "-f", "-b", "execve", "-qq", "-o", "/dev/null", "-e", "trace=rename", "-e", "inject=rename:delay_enter=300000"] + cmd,
+                                    env=sb.env, cwd=sb.dir, stdout=subprocess.PIPE, stderr=subprocess.PIPE)
+                again = read_tree(droot)
+                count(f"delete-rerun/{direction}")
+                rep = {"direction": direction, "flags": ["--jobs", "4", "--delete"], "killed_before": f"rename of {victim}", "kill_rc": kr.returncode, "staging_left_by_the_kill": left,
+                       "rerun": "same command, every rename entered 0.3 s late", "rerun_rc": rr.returncode, "rerun_stderr": rr.stderr.decode("utf-8", "replace")[-300:]}
+                if rr.returncode != 0 or nonstaging(again) != nonstaging(fin):
+                    diff = sorted(p for p in set(again) | set(fin) if again.get(p) != fin.get(p) and not p.endswith(".copia-tmp"))
+                    res["violations"].append(("rerun-does-not-reach-uninterrupted-result", f"the same command after the crash: rc={rr.returncode}, differs at {diff[:4]}", rep))
+
+
 def run(pid, tier, seed, rundir, model_run):
     rng = Rng(seed ^ 0xC09)
     res = {"violations": [], "broken": [], "notes": [], "distribution": {}, "samples": []}
@@ -109,6 +151,7 @@ def run(pid, tier, seed, rundir, model_run):
         longlist = direction == "push-longlist"
         if direction == "push-samelen":
             cut_stream_scenario(rng, res, count)
+            delete_rerun_scenario(rng, res, count)
             continue
         if longlist:
             direction = "push"
